@@ -18,7 +18,8 @@ RULE = ("grid world in {LineWorld, GridWorld, DiscreteWorld incl. zero-extent ax
         "read-back; sources: callable, list, int and float ndarray, ConstantGenerator, LookupGenerator with a nested-list "
         "or ndarray table of the world's dimensionality; every value encodes (component serial, x, y, z); non-trivial = "
         "non-cubic world with >=2 populated axes, >=2 live components of different source kinds at once and >=1 removal "
-        "followed by a full read-back; distinct = (shape, sequence of (op, source kind, live count))")
+        "followed by a full read-back; distinct = (shape, sequence of (op, source kind, live count))"
+        "; also: generator objects reused across components (table edited in place / rebound, constant changed), re-adding a live name, sequence-valued constants, a ConstantGenerator subclass, tables mixing text and numbers; rare switch for known finding F12")
 COMPONENTS = {"real": ["ECAgent.Environments.DiscreteWorld.add_cell_component / remove_cell_component / cells / get_cell",
                        "ConstantGenerator", "LookupGenerator", "LineWorld / GridWorld constructors", "pandas.DataFrame"],
               "stub": ["callable generators and source buffers are harness-built"]}
